@@ -40,6 +40,7 @@ type wstep struct {
 	Flag   bool   `json:"flag"`
 	Err    bool   `json:"err"`
 	Took   bool   `json:"took"`
+	Ovl    bool   `json:"ovl"` // issued while the previous SetSource was still inside its source's Value()
 	SlotA  int    `json:"slota"`
 	SlotS  string `json:"slots"`
 	Alive  bool   `json:"alive"`
@@ -126,9 +127,16 @@ type winner struct {
 	watcher   bool
 	typ       *dials.Type
 	wa        dials.WatchArgs
+	watchCtx  context.Context // what Watch was given: a well-behaved watcher lives and reports under it
+	entered   chan struct{}   // non-nil: Value announces itself and waits for gate (overlapped SetSource calls)
+	gate      chan struct{}
 }
 
 func (w *winner) Value(_ context.Context, t *dials.Type) (reflect.Value, error) {
+	if w.entered != nil {
+		close(w.entered)
+		<-w.gate
+	}
 	if w.failValue {
 		return reflect.Value{}, errors.New("inner-value-failed")
 	}
@@ -138,12 +146,13 @@ func (w *winner) Value(_ context.Context, t *dials.Type) (reflect.Value, error) 
 
 type winnerW struct{ *winner }
 
-func (w winnerW) Watch(_ context.Context, t *dials.Type, wa dials.WatchArgs) error {
+func (w winnerW) Watch(ctx context.Context, t *dials.Type, wa dials.WatchArgs) error {
 	if w.failWatch {
 		return errors.New("inner-watch-failed")
 	}
 	w.typ = t
 	w.wa = wa
+	w.watchCtx = ctx
 	return nil
 }
 
@@ -236,7 +245,7 @@ func runWrapCase(c wcase) (mis []wmis) {
 	}
 	alive := true
 	waitView := func(want *WCfg) bool {
-		dl := time.Now().Add(500 * time.Millisecond)
+		dl := time.Now().Add(5 * time.Second) // only used up when the view never gets there
 		for {
 			if reflect.DeepEqual(d.View(), want) {
 				return true
@@ -247,13 +256,83 @@ func runWrapCase(c wcase) (mis []wmis) {
 			time.Sleep(50 * time.Microsecond)
 		}
 	}
+	mkInner := func(h wstep) *winner {
+		return &winner{a: h.A, s: h.S, via: h.Via, watcher: h.Op == "setwatcher", failWatch: h.Op == "setwatcher" && !h.Flag}
+	}
+	skipNext := false
 	for i, h := range hist {
 		step = i
 		if c.Mode != "blank" {
 			step = i + 1
 		}
+		if skipNext {
+			skipNext = false
+			continue
+		}
+		if i+1 < len(hist) && hist[i+1].Ovl {
+			// two SetSource calls that overlap in time: the second is issued while the first is inside its source's
+			// Value(); the Blank serialises them, so the outcome is that of first-then-second
+			h2 := hist[i+1]
+			in1, in2 := mkInner(h), mkInner(h2)
+			in1.entered, in1.gate = make(chan struct{}), make(chan struct{})
+			var err1, err2 error
+			done1, done2 := make(chan struct{}), make(chan struct{})
+			pctx, pcancel := context.WithTimeout(ctx, 3*time.Second)
+			go func() { defer close(done1); err1 = blank.SetSource(pctx, wsource(in1, h.Wrap)) }()
+			select {
+			case <-in1.entered:
+			case <-done1: // refused before its source was consulted
+			case <-time.After(time.Second):
+			}
+			go func() { defer close(done2); err2 = blank.SetSource(pctx, wsource(in2, h2.Wrap)) }()
+			select {
+			case <-done2:
+			case <-time.After(60 * time.Millisecond):
+			}
+			close(in1.gate)
+			hung := false
+			for _, dch := range []chan struct{}{done1, done2} {
+				select {
+				case <-dch:
+				case <-time.After(3 * time.Second):
+					hung = true
+				}
+			}
+			pcancel()
+			if hung {
+				mis = append(mis, wmis{step, "hang", "overlapping SetSource calls did not return"})
+				return
+			}
+			if err1 == nil && in1.watcher {
+				cur = in1
+			}
+			if err2 == nil && in2.watcher {
+				cur = in2
+			}
+			for k, hh := range []wstep{h, h2} {
+				if hh.Took {
+					refSet(hh.A, hh.S)
+				}
+				e := []error{err1, err2}[k]
+				if (e != nil) != hh.Err {
+					mis = append(mis, wmis{step + k, "ref", fmt.Sprintf("overlapping SetSource calls, call %d (%s a=%d): error=%v, but serialised (first call first) it is error=%v", k+1, hh.Op, hh.A, e, hh.Err)})
+				}
+			}
+			if !waitView(rd.View()) {
+				mis = append(mis, wmis{step + 1, "ref", fmt.Sprintf("after overlapping %s(a=%d) and %s(a=%d): view %s, serialised (first call first) it is %s",
+					h.Op, h.A, h2.Op, h2.A, showW(d.View()), showW(rd.View()))})
+			}
+			skipNext = true
+			continue
+		}
 		var opErr error
-		opctx, opcancel := context.WithTimeout(ctx, 150*time.Millisecond)
+		// an operation the model expects to work gets a generous deadline (a loaded machine must not look like a hang); with
+		// the monitor gone every report can only end by its context expiring, and that is what the model predicts
+		opTimeout := 5 * time.Second
+		if !alive {
+			opTimeout = 150 * time.Millisecond
+		}
+		opctx, opcancel := context.WithTimeout(ctx, opTimeout)
 		switch h.Op {
 		case "setstatic":
 			in := &winner{a: h.A, s: h.S, via: h.Via}
@@ -274,11 +353,14 @@ func runWrapCase(c wcase) (mis []wmis) {
 			}
 			cur.a, cur.s, cur.via = h.A, h.S, h.Via
 			val := wbuild(cur.typ.Type(), h.A, h.S, h.Via)
+			// like a real watcher, the inner source reports under the context its Watch method was given
+			rctx, rcancel := context.WithTimeout(cur.watchCtx, opTimeout)
 			if h.Op == "report" {
-				opErr = cur.wa.ReportNewValue(opctx, val)
+				opErr = cur.wa.ReportNewValue(rctx, val)
 			} else {
-				opErr = cur.wa.BlockingReportNewValue(opctx, val)
+				opErr = cur.wa.BlockingReportNewValue(rctx, val)
 			}
+			rcancel()
 		case "reporterror":
 			opErr = cur.wa.ReportError(opctx, errors.New("inner-reported-error"))
 			ref.wa.ReportError(ctx, errors.New("inner-reported-error"))
@@ -309,7 +391,7 @@ func runWrapCase(c wcase) (mis []wmis) {
 			mis = append(mis, wmis{step, "model", fmt.Sprintf("%s: error=%v, model predicts error=%v", h.Op, opErr, h.Err)})
 		}
 		if h.Op == "reporterror" {
-			dl := time.Now().Add(300 * time.Millisecond)
+			dl := time.Now().Add(5 * time.Second)
 			for errCount.Load() < int64(h.Errs) && time.Now().Before(dl) {
 				time.Sleep(50 * time.Microsecond)
 			}
@@ -320,7 +402,7 @@ func runWrapCase(c wcase) (mis []wmis) {
 		if alive != h.Alive {
 			// the monitor must exit now: only the reference's two goroutines may remain
 			alive = h.Alive
-			dl := time.Now().Add(time.Second)
+			dl := time.Now().Add(5 * time.Second)
 			for len(dialsGoroutines()) > 2 && time.Now().Before(dl) {
 				time.Sleep(100 * time.Microsecond)
 			}
@@ -353,7 +435,7 @@ func wrapMain(args []string) {
 	out := bufio.NewWriter(outf)
 	scn := bufio.NewScanner(in)
 	scn.Buffer(make([]byte, 1<<20), 1<<24)
-	n := 0
+	n, failed, aborted := 0, 0, false
 	for scn.Scan() {
 		line := strings.TrimSpace(scn.Text())
 		if line == "" {
@@ -370,10 +452,18 @@ func wrapMain(args []string) {
 		out.Write(b)
 		out.WriteByte('\n')
 		n++
+		if len(mis) > 0 {
+			failed++
+		}
+		if failed >= 8 {
+			// the verdict is settled; every further failing case would sit out its generous deadlines
+			aborted = true
+			break
+		}
 	}
 	// goroutine hygiene: everything was cancelled case by case
 	leaked := waitNoDialsGoroutines(3 * time.Second)
-	b, _ := json.Marshal(map[string]any{"final": true, "cases": n, "leaked": len(leaked)})
+	b, _ := json.Marshal(map[string]any{"final": true, "cases": n, "leaked": len(leaked), "aborted": aborted})
 	out.Write(b)
 	out.WriteByte('\n')
 	out.Flush()
